@@ -887,3 +887,79 @@ register("C18", gen=gen_meshes, oracles=[oracle.c18], nontrivial=grid_nontrivial
 _lvl("C18", "proof",
      "Theorems about the definitions the model executes: edgeMap_spec (the orientation-insensitive edge map built from the triangles holds exactly the triangle edges, each once - so neighbours are exactly the nodes sharing a triangle edge, without duplicates, and the boundary test counts triangles per edge), tri_area_partition (over any field: the three circumcentric shares computed by triShares/areaSquare sum to the triangle's area, hence node areas sum to the covered area). Status rules, distances and the bincount accumulation order are model definitions tied by correspondence; oracle recomputes everything from the triangles in exact rationals.",
      "Lean 4 proofs (list induction; field_simp + linear_combination) + bit-exact correspondence + exact-rational oracle")
+
+
+# ----------------------------------------------------------------------------- C12 / C13
+
+# elevation magnitudes whose products with K*dt*A^m overflow binary64 are left to the corpus
+# scenario of finding D13 (the eroder has no overflow handling)
+SPL_FAMILIES = ["random", "random", "ints", "ints2", "steps", "plateau_eps", "negative", "plane", "cones", "zero"]
+
+
+def gen_spl(rng, tier):
+    out = []
+    for k in range(counts(tier, 220, 2200)):
+        g = gen.any_grid(rng, small=(tier == "quick"))
+        ops = rng.choice([["single"], ["pflood", "single"], ["single", "mst:%s:%s" % (rng.choice("kb"), rng.choice(["basic", "carve"]))],
+                          ["multi:" + hx(rng.choice([1.0, 1.1, 0.0]))], ["pflood", "multi:" + hx(1.0)], ["single:2"]])
+        multi = ops[-1].startswith("multi")
+        lines = [g.line(), "graph " + " ".join(ops)]
+        kind = rng.choice(["s", "s", "a"])
+        m = rng.choice([0.3, 0.5, 1.0])
+        nn = rng.choice([1.0, 1.0, 1.0, 0.5, 0.8, 1.5, 2.0, 4.0]) if not multi else rng.choice([1.0, 1.0, 1.0, 1.0, 2.0, 0.8, 1.5])
+        tol = rng.choice([1e-3, 1e-6])
+        ks = rng.choice([1e-5, 1e-3, 2e-2, 1.0, 0.0])
+        kv = [ks * rng.choice([0.1, 1.0, 1.0, 3.0]) for _ in range(g.n)]
+        for u in range(rng.randint(1, 3)):
+            if rng.random() < 0.3:
+                lines.append("set_mask " + " ".join(map(str, gen.mask_bits(rng, g))))
+            if rng.random() < 0.25:
+                lines.append("set_base " + " ".join(map(str, rng.sample(range(g.n), rng.randint(1, min(3, g.n))))))
+            z = gen.elevation(rng, g, rng.choice(SPL_FAMILIES))
+            lines.append("update " + gen.hexes(z))
+            for rep in range(rng.randint(1, 2)):
+                dt = rng.choice([0.0, 1.0, 10.0, 100.0, 1e4, 1e8])
+                area = [rng.choice([1.0, 4.0, 100.0, 2.5e3, 1e6]) * (0.5 + rng.random()) for _ in range(g.n)]
+                ze = z if rng.random() < 0.7 else gen.elevation(rng, g, rng.choice(SPL_FAMILIES))
+                kpart = ("s " + hx(ks)) if kind == "s" else ("a " + gen.hexes(kv))
+                lines.append("spl %s %s %s %s %s %s %s" % (kpart, hx(m), hx(nn), hx(tol), hx(dt), gen.hexes(area), gen.hexes(ze)))
+                z = ze
+        out.append(("e%d" % k, lines))
+    return out
+
+
+def spl_tags(si):
+    t = tags_flow(si)[:2]
+    for c in si.calls:
+        if c.cmd == "spl":
+            r = c.i("spl")
+            if c.O.get("spl", [""])[0] == "err":
+                t.append("rejected")
+            if "ncorr" in c.O and c.O["ncorr"] != ["0"]:
+                t.append("limited>0")
+            if c.O.get("spl_new") == ["0"]:
+                t.append("eroder_reused")
+    return sorted(set(t))
+
+
+def spl_nontrivial(si):
+    return any(c.cmd == "spl" and "erosion" in c.O and any(x not in ("0000000000000000", "8000000000000000") for x in c.O["erosion"]) for c in si.calls)
+
+
+SPL_TB = FLOW_TB + ["std::pow of the C++ side and Float.pow of the Lean runtime are the same libm function (bit-identical results observed on every compared scenario)",
+                    "SPL theorems are over an ordered field (exact arithmetic); rounding is covered by the bit-exact correspondence and the oracle's documented allowance",
+                    "the m_linear classification expression and the Newton exit test are regenerated from spl.hpp by translate.py"]
+register("C12", gen=gen_spl, oracles=[oracle.c12], cause=oracle.spl_cause, nontrivial=spl_nontrivial, tags=spl_tags,
+         sections={"erosion", "ncorr", "spl"},
+         rule="routed graphs (single / parallel single / multi, pflood or spanning-tree resolved or unresolved, masks, interior base levels) x K scalar/array (0 .. 1, x0.1..3 variation) x m in {.3,.5,1} x n in {.5,.8,1,1.5,2,4} x tol x dt in {0,1,10,100,1e4,1e8} x random areas up to 1e6; 1-2 erode() calls per update on one eroder object, elevation = routed field or another field; non-trivial = some erosion is non-zero")
+register("C13", gen=gen_spl, oracles=[oracle.c13], cause=oracle.spl_cause, nontrivial=spl_nontrivial, tags=spl_tags,
+         sections={"erosion", "ncorr", "spl"},
+         rule="same scenario family as C12; oracle evaluates the residual of the backward-Euler equation at every non-limited node (double arithmetic with a stated bound: tolerance + 64 eps x sensitivity-weighted magnitudes); non-trivial = some erosion is non-zero")
+for _p in ("C12", "C13"):
+    PROPS[_p]["trusted_base"] = SPL_TB
+_lvl("C12", "translation_validation",
+     "spl_eroder::erode is modelled in Lean statement by statement (Fs.Spl.erode over the scalar-operation record; lake test, closed form, Newton loop, clamp) and compared bit for bit (erosion and n_corr) on every run; the oracle checks zero erosion at terminal nodes and in lakes, sign, and no slope reversal on the implementation's doubles. Closed-form theorems (solve_le, erosion_ge) exist for a sum-based formulation not yet tied to the executed fold.",
+     "bit-exact differential correspondence with the Lean model + sign/lake/floor oracle")
+_lvl("C13", "translation_validation",
+     "Same Lean model and correspondence as C12; the oracle evaluates the residual of the implicit equation at every non-limited node against tolerance + rounding bound. The classification of exponents as 'one' and the Newton exit test are regenerated from the source.",
+     "bit-exact differential correspondence with the Lean model + residual oracle")
